@@ -72,7 +72,9 @@ def run(chk, prog):
     # projection refresh after the last map, before the next iteration
     after = [A.strip(st, casts=False) for st in top if st["line"] > applies[-1][1]["line"]] if applies else []
     upd = [x for x in after if x.get("k") == "CXXMemberCallExpr" and x.get("callee") == "vfps::PhaseSpace::updateXProjection" and "grid_t1" in A.show(A.call_object(x))]
-    chk.check(len(upd) == 1, "R1", A.loc(mainf, loop), "the X projection of grid_t1 is refreshed once after the last map of the iteration", "loop:xprojection-refresh:%d" % len(upd))
+    # (that the profile the wake is computed from is fresh at the wake update is decided flow-sensitively by R2 under the assumption that a
+    # wake map exists; an unconditional top-level refresh is one way to achieve it, not a requirement of the statement)
+    chk.tables["xprojection_refresh_statements_after_last_map"] = len(upd)
     # ---- R2 -------------------------------------------------------------------------------------
     seen = set()
     ncase = 0
